@@ -8,6 +8,8 @@ from pathlib import Path
 ROOT = Path(__file__).resolve().parent.parent
 props = [json.loads(l) for l in (ROOT / "properties.jsonl").read_text().splitlines() if l.strip()]
 entries = json.loads((ROOT / "tools" / "manifest_entries.json").read_text())
+for f in sorted((ROOT / "tools" / "manifest.d").glob("*.json")):
+    entries.update(json.loads(f.read_text()))
 na = json.loads((ROOT / "tools" / "not_applicable.json").read_text()) if (ROOT / "tools" / "not_applicable.json").exists() else {}
 hooks = json.loads((ROOT / "tools" / "hooks.json").read_text())
 
